@@ -22,6 +22,7 @@ let channels : (string * ((string * string) list -> string)) list = [
   ("sort", Chan_sort.run_sort);
   ("sortcodec", Chan_sort.run_codec);
   ("sortkm", Chan_sort.run_km);
+  ("xform", Chan_xform.run);
 ]
 
 let () =
